@@ -43,7 +43,7 @@ def Cursor.pos (len : Nat) : Cursor → Int
 /-- `Text::beginaligned_cursor` / `TextSelection::beginaligned_cursor` against a text of length `len` -/
 def beginAligned (len : Nat) : Cursor → Out Nat
   | .b n => if n > len then .err "CursorOutOfBounds" else .ok n
-  | .e z => if z.natAbs > len then .err "CursorOutOfBounds" else .ok (len - z.natAbs)
+  | .e z => if z > 0 ∨ z.natAbs > len then .err "CursorOutOfBounds" else .ok (len - z.natAbs)
 
 /-- `TextResource::textselection_by_offset` (and `textselection_by_offset_unchecked`, which performs
 the same checks) -/
